@@ -74,11 +74,10 @@ theorem delItemList_ok (f : Forest) (n : Bool) (m : Meta) (its : Items) (idx : I
   · exact notify_ok _ _ (rawDelList_ok f m its _ hf hits)
   · exact rawDelList_ok f m its _ hf hits
 
-theorem detachedOld_ok {m : Meta} {its : Items} {k : Key} (hits : okItems m.id m.path its = true) :
-    ∀ t ∈ (match getKey its k with
-      | some (Tree.node om oits) => some (Tree.setPath [] (Tree.setParent none (Tree.node om oits)))
-      | _ => none).toList, t.okRoot = true := by
+theorem dictDetached_ok {m : Meta} {its : Items} {k : Key} (hits : okItems m.id m.path its = true) :
+    ∀ t ∈ (dictDetached its k).toList, t.okRoot = true := by
   intro t ht
+  unfold dictDetached at ht
   simp only [Option.mem_toList] at ht
   split at ht
   · next om oits hold =>
@@ -86,23 +85,27 @@ theorem detachedOld_ok {m : Meta} {its : Items} {k : Key} (hits : okItems m.id m
     exact okRoot_setPath [] _ (okRoot_setParent none _ (okRoot_of_okSub (getKey_ok hits hold)))
   · cases ht
 
+theorem dictErase_ok (f : Forest) (m : Meta) (its : Items) (k : Key) (hf : f.ok = true)
+    (hits : okItems m.id m.path its = true) : (dictErase f m its k).ok = true := by
+  unfold dictErase
+  exact addRoots_ok _ _ (mapAt_ok f m.id _ (erase_local m.id k) hf) (dictDetached_ok hits)
+
+theorem rawSetDict_missing_cases (f : Forest) (m : Meta) (its : Items) (k : Key) (hk : m.kind = .dict) :
+    rawSetDict Cfg.patched f m its k (.atom .missing) = .ok (f, false) ∨
+    rawSetDict Cfg.patched f m its k (.atom .missing) = .ok (dictErase f m its k, true) := by
+  by_cases h1 : sameValue (.atom .missing) (getKey its k) = true
+  · left; simp [rawSetDict, h1]
+  by_cases h2 : hasKey its k = true
+  · right; simp [rawSetDict, h1, h2, VE.isMissing, dictBadKey, hk, isObjKind]
+  · left; simp [rawSetDict, h1, h2, VE.isMissing]
+
 theorem rawSetDict_missing_ok (f : Forest) (m : Meta) (its : Items) (k : Key) (hf : f.ok = true)
     (hits : okItems m.id m.path its = true) (hk : m.kind = .dict) :
     ∀ r, rawSetDict Cfg.patched f m its k (.atom .missing) = .ok r → r.1.ok = true := by
   intro r hr
-  simp only [rawSetDict, hk, VE.isMissing, isObjKind, Bool.true_and, Bool.not_false, Bool.and_true] at hr
-  by_cases hs : (Option.map (sameAtom (VE.atom Atom.missing)) (getKey its k)).getD false = true
-  · simp only [hs, if_true] at hr
-    cases hr; exact hf
-  simp only [hs] at hr
-  by_cases hh : hasKey its k = true
-  · simp only [hh, Bool.not_true, if_true] at hr
-    simp at hr
-    cases hr
-    exact addRoots_ok _ _ (mapAt_ok f m.id _ (erase_local m.id k) hf) (detachedOld_ok hits)
-  · simp only [Bool.not_eq_true] at hh
-    simp [hh] at hr
-    cases hr; exact hf
+  rcases rawSetDict_missing_cases f m its k hk with h | h
+  · rw [h] at hr; cases hr; exact hf
+  · rw [h] at hr; cases hr; exact dictErase_ok f m its k hf hits
 
 theorem permute_ok (f : Forest) (t : Nat) (g : Items → Items) (hg : NoNewValues g) (hf : f.ok = true) :
     (permute Cfg.patched f t g).ok = true := by
@@ -125,5 +128,216 @@ theorem delItemDict_ok (f : Forest) (n : Bool) (m : Meta) (its : Items) (k : Key
     split
     · exact notify_ok _ _ this
     · exact this
+
+end Pg.Sym
+
+namespace Pg.Sym
+
+/-! ### slice deletion and seal -/
+
+theorem noNew_filter (q : Key × Tree → Bool) : NoNewValues (fun xs => xs.filter q) := by
+  intro xs kv hkv
+  exact ⟨kv, (List.mem_filter.mp hkv).1, rfl⟩
+
+theorem rawDelMany_ok (f : Forest) (m : Meta) (its : Items) (ps : List Nat) (hf : f.ok = true)
+    (hits : okItems m.id m.path its = true) : (rawDelMany Cfg.patched f m its ps).ok = true := by
+  unfold rawDelMany
+  apply addRoots_ok
+  · apply mapAt_ok f m.id _ _ hf
+    simp only [Cfg.patched, if_true]
+    exact rearrange_local m.id _ (noNew_filter _)
+  · intro t ht
+    simp only [Cfg.patched, if_true, List.mem_map, List.mem_filter] at ht
+    obtain ⟨c, ⟨⟨kv, ⟨hkv, _⟩, rfl⟩, _⟩, rfl⟩ := ht
+    rw [okItems_mem] at hits
+    exact detachFrom_ok .list (hits kv hkv)
+
+mutual
+  theorem mapSubtree_seal_okSub (t : Nat) (s : Bool) (h : Nat) (p : List Key) : (tr : Tree) → tr.okSub h p = true →
+      (tr.mapSubtree t (Tree.seal s)).okSub h p = true
+    | .leaf _, _ => by simp [Tree.mapSubtree, Tree.okSub]
+    | .node m its, hok => by
+      unfold Tree.mapSubtree
+      split
+      · exact seal_okSub s h p _ hok
+      · rw [okSub_node] at hok ⊢
+        exact ⟨hok.1, mapSubtreeItems_seal_ok t s m.id p its hok.2⟩
+  theorem mapSubtreeItems_seal_ok (t : Nat) (s : Bool) (h : Nat) (p : List Key) : (its : Items) →
+      okItems h p its = true → okItems h p (mapSubtreeItems t (Tree.seal s) its) = true
+    | [], _ => by simp [mapSubtreeItems, okItems]
+    | (k, c) :: r, hok => by
+      rw [okItems_cons] at hok
+      unfold mapSubtreeItems
+      rw [okItems_cons]
+      exact ⟨mapSubtree_seal_okSub t s h (p ++ [k]) c hok.1, mapSubtreeItems_seal_ok t s h p r hok.2⟩
+end
+
+theorem mapSubtree_seal_okRoot (t : Nat) (s : Bool) (tr : Tree) (hok : tr.okRoot = true) :
+    (tr.mapSubtree t (Tree.seal s)).okRoot = true := by
+  cases tr with
+  | leaf a => rfl
+  | node m its =>
+    unfold Tree.mapSubtree
+    split
+    · -- the root itself is sealed: flags only
+      have h1 : (Tree.node m its).okAt m.parent m.path = true := by rw [okAt_node]; exact ⟨⟨rfl, rfl⟩, hok⟩
+      exact okRoot_of_okAt (seal_okAt s m.parent m.path _ h1)
+    · exact mapSubtreeItems_seal_ok t s m.id m.path its hok
+
+/-! ### roots have no parent: what an operation removes or replaces is detached -/
+
+def Tree.parentless : Tree → Bool
+  | .leaf _ => true
+  | .node m _ => m.parent.isNone
+
+def Forest.rootsFree (f : Forest) : Bool := f.roots.all Tree.parentless
+
+theorem Forest.rootsFree_iff (f : Forest) : f.rootsFree = true ↔ ∀ r ∈ f.roots, r.parentless = true := by
+  simp [Forest.rootsFree, List.all_eq_true]
+
+theorem updateAt_parentless (t : Nat) (g : Meta → Items → Items) (tr : Tree) :
+    (tr.updateAt t g).parentless = tr.parentless := by
+  cases tr with
+  | leaf a => rfl
+  | node m its => unfold Tree.updateAt; split <;> rfl
+
+theorem mapAt_free (f : Forest) (t : Nat) (g : Meta → Items → Items) (hf : f.rootsFree = true) :
+    (f.mapAt t g).rootsFree = true := by
+  rw [Forest.rootsFree_iff] at *
+  intro r hr
+  simp only [Forest.mapAt, List.mem_map] at hr
+  obtain ⟨r0, hr0, rfl⟩ := hr
+  rw [updateAt_parentless]; exact hf r0 hr0
+
+theorem addRoot_free (f : Forest) (t : Tree) (hf : f.rootsFree = true) (ht : t.parentless = true) :
+    (f.addRoot t).rootsFree = true := by
+  rw [Forest.rootsFree_iff] at *
+  unfold Forest.addRoot
+  split
+  · intro r hr
+    simp only [List.mem_append, List.mem_singleton] at hr
+    rcases hr with hr | rfl
+    · exact hf r hr
+    · exact ht
+  · exact hf
+
+theorem addRoots_free (ts : List Tree) : ∀ (f : Forest), f.rootsFree = true → (∀ t ∈ ts, t.parentless = true) →
+    (addRoots f ts).rootsFree = true := by
+  induction ts with
+  | nil => intro f hf _; exact hf
+  | cons t ts ih =>
+    intro f hf hts
+    simp only [addRoots, List.foldl_cons]
+    exact ih (f.addRoot t) (addRoot_free f t hf (hts t (by simp))) (fun x hx => hts x (by simp [hx]))
+
+theorem setPath_parentless (p : List Key) (t : Tree) : (t.setPath p).parentless = t.parentless := by
+  cases t with
+  | leaf a => rfl
+  | node m its => unfold Tree.setPath; split <;> rfl
+
+theorem setParent_none_parentless (t : Tree) : (t.setParent none).parentless = true := by
+  cases t <;> simp [Tree.setParent, Tree.parentless]
+
+theorem detachFrom_parentless (kind : Kind) (t : Tree) : (detachFrom kind t).parentless = true := by
+  unfold detachFrom
+  cases kind <;> simp only [setPath_parentless] <;> exact setParent_none_parentless t
+
+theorem notify_free (f : Forest) (targets : List Nat) (hf : f.rootsFree = true) : (notify f targets).rootsFree = true := by
+  unfold notify
+  generalize ((targets.flatMap (chainFrom f (f.ids.length + 1))).eraseDups) = chain
+  induction chain generalizing f with
+  | nil => exact hf
+  | cons c cs ih => exact ih (onChangeAt f c) (mapAt_free f c _ hf)
+
+theorem normalizeRoots_free (before after : Forest) (k : Bool) (h : after.rootsFree = true) :
+    (normalizeRoots before after k).rootsFree = true := by
+  rw [Forest.rootsFree_iff] at *
+  intro r hr
+  simp only [normalizeRoots, List.mem_append, List.mem_filterMap, mem_sortByIdx, List.mem_filter] at hr
+  rcases hr with ⟨i, _, hfind⟩ | ⟨hmem, _⟩
+  · exact h r (List.mem_of_find?_eq_some hfind)
+  · exact h r hmem
+
+theorem dropAll_free (f : Forest) (t : Nat) (m : Meta) (its : Items) (hf : f.rootsFree = true) :
+    (dropAll Cfg.patched f t m its).rootsFree = true := by
+  unfold dropAll
+  apply addRoots_free _ _ (mapAt_free f t _ hf)
+  intro x hx
+  simp only [List.mem_map, Cfg.patched, if_true] at hx
+  obtain ⟨c, _, rfl⟩ := hx
+  exact detachFrom_parentless _ _
+
+theorem rawDelList_free (f : Forest) (m : Meta) (its : Items) (pos : Nat) (hf : f.rootsFree = true) :
+    (rawDelList Cfg.patched f m its pos).rootsFree = true := by
+  unfold rawDelList
+  apply addRoot_free _ _ (mapAt_free f m.id _ hf)
+  simp only [Cfg.patched, if_true]
+  exact detachFrom_parentless _ _
+
+theorem rawDelMany_free (f : Forest) (m : Meta) (its : Items) (ps : List Nat) (hf : f.rootsFree = true) :
+    (rawDelMany Cfg.patched f m its ps).rootsFree = true := by
+  unfold rawDelMany
+  apply addRoots_free _ _ (mapAt_free f m.id _ hf)
+  intro x hx
+  simp only [List.mem_map, Cfg.patched, if_true] at hx
+  obtain ⟨c, _, rfl⟩ := hx
+  exact detachFrom_parentless _ _
+
+theorem delItemList_free (f : Forest) (n : Bool) (m : Meta) (its : Items) (idx : Int) (acc : Bool)
+    (hf : f.rootsFree = true) : (delItemList Cfg.patched f n m its idx acc).forest.rootsFree = true := by
+  unfold delItemList
+  simp only
+  split; · exact hf
+  split; · exact hf
+  split; · exact hf
+  split
+  · exact notify_free _ _ (rawDelList_free f m its _ hf)
+  · exact rawDelList_free f m its _ hf
+
+theorem dictDetached_free (its : Items) (k : Key) : ∀ t ∈ (dictDetached its k).toList, t.parentless = true := by
+  intro t ht
+  unfold dictDetached at ht
+  simp only [Option.mem_toList] at ht
+  split at ht
+  · cases ht
+    rw [setPath_parentless]; exact setParent_none_parentless _
+  · cases ht
+
+theorem rawSetDict_missing_free (f : Forest) (m : Meta) (its : Items) (k : Key) (hf : f.rootsFree = true)
+    (hk : m.kind = .dict) :
+    ∀ r, rawSetDict Cfg.patched f m its k (.atom .missing) = .ok r → r.1.rootsFree = true := by
+  intro r hr
+  rcases rawSetDict_missing_cases f m its k hk with h | h
+  · rw [h] at hr; cases hr; exact hf
+  · rw [h] at hr; cases hr
+    unfold dictErase
+    exact addRoots_free _ _ (mapAt_free f m.id _ hf) (dictDetached_free its k)
+
+theorem delItemDict_free (f : Forest) (n : Bool) (m : Meta) (its : Items) (k : Key) (acc : Bool)
+    (hf : f.rootsFree = true) (hk : m.kind = .dict) :
+    (delItemDict Cfg.patched f n m its k acc).forest.rootsFree = true := by
+  unfold delItemDict
+  split; · exact hf
+  split; · exact hf
+  split; · exact hf
+  unfold finish
+  split
+  · exact hf
+  · next f' upd heq =>
+    have := rawSetDict_missing_free f m its k hf hk (f', upd) heq
+    split
+    · exact notify_free _ _ this
+    · exact this
+
+theorem permute_free (f : Forest) (t : Nat) (g : Items → Items) (hf : f.rootsFree = true) :
+    (permute Cfg.patched f t g).rootsFree = true := by
+  unfold permute
+  exact mapAt_free f t _ hf
+
+theorem mapSubtree_seal_parentless (t : Nat) (s : Bool) (tr : Tree) :
+    (tr.mapSubtree t (Tree.seal s)).parentless = tr.parentless := by
+  cases tr with
+  | leaf a => rfl
+  | node m its => unfold Tree.mapSubtree; split <;> simp [Tree.seal, Tree.parentless]
 
 end Pg.Sym
